@@ -204,10 +204,21 @@ func main() {
 				{"block", rowPositions(rows, true), true},
 			}
 			for _, k := range kinds {
-				for _, row := range k.rows {
+				for ri, row := range k.rows {
 					id++
 					f := Fault{Shape: b.Fault.Shape, Kind: k.kind, Nth: nth, Row: row}
-					faults = append(faults, Case{ID: id, Now: runNow, Group: "G3", Route: b.Route, Query: b.Query, Params: b.Params, Fault: f, Cancel: k.cancel})
+					// every faulted request is followed by a healthy one under the same database name; for faults
+					// in the first three statements (the version lookup and the first data statement) also, as a
+					// case of its own, by a concurrent pair of healthy requests
+					fu := ""
+					if ri == 0 || thorough {
+						fu = "one" // quick: the follow-up at the first row position of every (statement, fault kind)
+					}
+					faults = append(faults, Case{ID: id, Now: runNow, Group: "G3", Route: b.Route, Query: b.Query, Params: b.Params, Fault: f, Cancel: k.cancel, FollowUp: fu})
+					if nth <= 2 && ri == 0 {
+						id++
+						faults = append(faults, Case{ID: id, Now: runNow, Group: "G3", Route: b.Route, Query: b.Query, Params: b.Params, Fault: f, Cancel: k.cancel, FollowUp: "pair"})
+					}
 				}
 			}
 		}
